@@ -1,6 +1,7 @@
 import ChiaModel.Drv.C11
 import ChiaModel.Drv.C01
 import ChiaModel.Drv.C03
+import ChiaModel.Drv.C05
 import ChiaModel.Spec.CostTable
 open ChiaModel.Drv
 
@@ -9,6 +10,7 @@ def dispatch (line : String) : String :=
   | "C11" :: rest => C11.handle ("C11" :: rest)
   | "C01" :: rest => C01.handle ("C01" :: rest)
   | "C03" :: rest => C03.handle ("C03" :: rest)
+  | "C05" :: rest => C05.handle ("C05" :: rest)
   | ["C04", "ucc", op] =>
     -- the documented closed form (Props/C04 proves the table regenerated from the source equal to it)
     toString (ChiaModel.Spec.unknownConditionCost (natArg op))
